@@ -8,6 +8,7 @@ CONSTANTS
   Covers <- MCCovers
   AclSets <- AclAll
   MaxViews = 2
+  Admit <- AdmitAll
   Borns = {"wire", "msg"}
   Answers = {"cache", "tail"}
 INIT Init
